@@ -2,7 +2,7 @@
 Helper lemmas for C08: the torus relation and the value theorem of the same-radix
 `vec_znx_normalize` (`normalizeInterCoef`) outside the gap region.
 -/
-import Poulpy.Lemmas.NormRun
+import Poulpy.Lemmas.NormGap
 
 namespace NormL
 
@@ -18,6 +18,16 @@ def TorusEq (X : Int) (px : Nat) (Y : Int) (py : Nat) : Prop :=
 theorem TorusEq.near {X Y : Int} {px py : Nat} (h : TorusEq X px Y py) : TorusNear X px Y py := by
   obtain ⟨k, hk⟩ := h
   exact ⟨k, 0, by linarith, by simp⟩
+
+/-- with no output limb every two torus elements are within one unit (= 1) -/
+theorem torusNear_zero_prec (X Y : Int) (py : Nat) : TorusNear X 0 Y py := by
+  have hp := two_pow_pos py
+  refine ⟨X - Y / 2 ^ py, -(Y % 2 ^ py), ?_, ?_⟩
+  · have := Int.emod_add_mul_ediv Y (2 ^ py)
+    simp only [pow_zero, mul_one, Nat.zero_add]
+    linear_combination this
+  · rw [abs_neg, abs_of_nonneg (Int.emod_nonneg _ (ne_of_gt hp))]
+    exact le_of_lt (Int.emod_lt_of_pos _ hp)
 
 /-- `splitOffset` is floor division: `off = limbs_offset·b + lsh`, `0 ≤ lsh < b` -/
 theorem splitOffset_spec {b : Nat} (hb : 1 ≤ b) (off : Int) :
@@ -189,11 +199,10 @@ theorem clampNat_sub (m n hi : Nat) : clampNat ((m : Int) - n) hi = min (m - n) 
 theorem clampNat_add (m n hi : Nat) : clampNat ((m : Int) + n) hi = min (m + n) hi := by
   unfold clampNat; congr 1
 
-/-- **value theorem of the same-radix `vec_znx_normalize`** outside the gap region
-(`-limbs_offset ≤ res_size`): output length, balanced digits, value within one unit of the last
-output limb, and exact when the output has enough limbs. -/
+/-- **value theorem of the same-radix `vec_znx_normalize`**, every offset: output length, balanced
+digits, value within one unit of the last output limb, and exact when the output has enough limbs. -/
 theorem normalizeInterCoef_value (hr0 : HeadRoom bits b 0 H) (rs : Nat) (off : Int) (a : List Int)
-    (ha : ∀ x ∈ a, |x| ≤ H) (hng : -(splitOffset b off).2 ≤ (rs : Int)) :
+    (ha : ∀ x ∈ a, |x| ≤ H) :
     (normalizeInterCoef bits b rs off a).length = rs ∧
     (∀ d ∈ normalizeInterCoef bits b rs off a, Balanced b d) ∧
     TorusNear (valI b (normalizeInterCoef bits b rs off a)) (b * rs)
@@ -204,14 +213,17 @@ theorem normalizeInterCoef_value (hr0 : HeadRoom bits b 0 H) (rs : Nat) (off : I
   have hb : 1 ≤ b := by have := hr0.hlsh; omega
   obtain ⟨hoff, hl⟩ := splitOffset_spec hb off
   unfold normalizeInterCoef
-  generalize hso : splitOffset b off = so at hoff hl hng ⊢
+  generalize hso : splitOffset b off = so at hoff hl ⊢
   obtain ⟨lsh, lo⟩ := so
-  simp only at hoff hl hng ⊢
+  simp only at hoff hl ⊢
   have hr := hr0.with_lsh hl
   simp only [interRanges]
   rcases le_or_gt 0 lo with hlo | hlo
   · -- non-negative limb offset: the top `L` limbs of `a` are shifted out
     obtain ⟨L, rfl⟩ := Int.eq_ofNat_of_zero_le hlo
+    have hg0 : Int.toNat (-(L : Int) - (rs : Int)) = 0 := by omega
+    rw [hg0]
+    simp only [Nat.zero_min, gapRun]
     have hoffn : off.toNat = L * b + lsh := by omega
     have hoffm : (-off).toNat = 0 := by omega
     rw [clampNat_neg, clampNat_sub, clampNat_natCast, clampNat_add, hoffn, hoffm]
@@ -272,7 +284,6 @@ theorem normalizeInterCoef_value (hr0 : HeadRoom bits b 0 H) (rs : Nat) (off : I
   · -- negative limb offset
     obtain ⟨Ln, rfl⟩ := Int.exists_eq_neg_ofNat (le_of_lt hlo)
     have hLn : 1 ≤ Ln := by omega
-    have hng' : Ln ≤ rs := by omega
     have hbl : lsh ≤ Ln * b := by
       have : b * 1 ≤ b * Ln := Nat.mul_le_mul_left b hLn
       have : b * Ln = Ln * b := Nat.mul_comm _ _
@@ -282,120 +293,112 @@ theorem normalizeInterCoef_value (hr0 : HeadRoom bits b 0 H) (rs : Nat) (off : I
     have hoffm : (-off).toNat = Ln * b - lsh := by omega
     have e1 : (a.length : Int) - -(Ln : Int) = (a.length : Int) + Ln := by ring
     have e2 : (rs : Int) + -(Ln : Int) = (rs : Int) - Ln := by ring
-    rw [neg_neg, e1, e2, clampNat_natCast, clampNat_add, clampNat_neg, clampNat_sub, hoffn, hoffm]
-    have h1 : min Ln rs = Ln := by omega
-    rw [h1]
-    set aStart := min (rs - Ln) a.length with haS
+    have hgap : Int.toNat (- -(Ln : Int) - (rs : Int)) = Ln - rs := by omega
+    rw [hgap, neg_neg, e1, e2, clampNat_natCast, clampNat_add, clampNat_neg, clampNat_sub, hoffn, hoffm]
     simp only [List.drop_zero, pow_zero, mul_one]
-    have hMb : ∀ x ∈ a.take aStart, |x| ≤ H := fun x hx => ha x (List.mem_of_mem_take hx)
-    have hDb : ∀ x ∈ a.drop aStart, |x| ≤ H := fun x hx => ha x (List.mem_of_mem_drop hx)
-    obtain ⟨hlen, hbal, q, ε, hε, hε0, hcore⟩ :=
-      inter_core hr (a.take aStart) (a.drop aStart) hMb hDb Ln (rs - min (a.length + Ln) rs)
-    rw [List.take_append_drop] at hcore
-    have hml : (a.take aStart).length = aStart := by simp; omega
-    have hdl : (a.drop aStart).length = a.length - aStart := by simp
-    rw [hml, hdl] at hcore
-    rw [hdl] at hε
-    rw [hml] at hlen
-    have hS : (2 : Int) ^ (Ln * b - lsh) * 2 ^ lsh = 2 ^ (b * Ln) := by
-      rw [← pow_add]; congr 1; rw [Nat.mul_comm b Ln]; omega
-    have hε0' : a.length - aStart = 0 → ε = 0 := by
-      intro h; apply hε0; apply List.drop_eq_nil_of_le; omega
-    have := neg_arith _ (valI b a) q ε b lsh (Ln * b - lsh) Ln aStart (a.length - aStart)
-      (rs - min (a.length + Ln) rs) rs a.length hS (by omega) (by omega) (by omega) hε hε0' hcore
-    refine ⟨by omega, hbal, this.1, fun hex => this.2 ?_⟩
-    have hpc : ((Ln * b - lsh : Nat) : Int) = (Ln : Int) * b - lsh := by
-      have : (Ln : Int) * b = ((Ln * b : Nat) : Int) := by push_cast; ring
+    by_cases hng' : Ln ≤ rs
+    · -- the shifted input overlaps the output (or touches it): no gap steps
+      have hg0 : Ln - rs = 0 := by omega
+      rw [hg0]
+      simp only [Nat.zero_min, gapRun]
+      have h1 : min Ln rs = Ln := by omega
+      rw [h1]
+      set aStart := min (rs - Ln) a.length with haS
+      have hMb : ∀ x ∈ a.take aStart, |x| ≤ H := fun x hx => ha x (List.mem_of_mem_take hx)
+      have hDb : ∀ x ∈ a.drop aStart, |x| ≤ H := fun x hx => ha x (List.mem_of_mem_drop hx)
+      obtain ⟨hlen, hbal, q, ε, hε, hε0, hcore⟩ :=
+        inter_core hr (a.take aStart) (a.drop aStart) hMb hDb Ln (rs - min (a.length + Ln) rs)
+      rw [List.take_append_drop] at hcore
+      have hml : (a.take aStart).length = aStart := by simp; omega
+      have hdl : (a.drop aStart).length = a.length - aStart := by simp
+      rw [hml, hdl] at hcore
+      rw [hdl] at hε
+      rw [hml] at hlen
+      have hS : (2 : Int) ^ (Ln * b - lsh) * 2 ^ lsh = 2 ^ (b * Ln) := by
+        rw [← pow_add]; congr 1; rw [Nat.mul_comm b Ln]; omega
+      have hε0' : a.length - aStart = 0 → ε = 0 := by
+        intro h; apply hε0; apply List.drop_eq_nil_of_le; omega
+      have := neg_arith _ (valI b a) q ε b lsh (Ln * b - lsh) Ln aStart (a.length - aStart)
+        (rs - min (a.length + Ln) rs) rs a.length hS (by omega) (by omega) (by omega) hε hε0' hcore
+      refine ⟨by omega, hbal, this.1, fun hex => this.2 ?_⟩
+      have hpc : ((Ln * b - lsh : Nat) : Int) = (Ln : Int) * b - lsh := by
+        have : (Ln : Int) * b = ((Ln * b : Nat) : Int) := by push_cast; ring
+        omega
+      by_contra hne
+      have h3 : rs - Ln + 1 ≤ a.length := by omega
+      have h4 : b * (rs - Ln + 1) ≤ b * a.length := Nat.mul_le_mul_left b h3
+      have h5 : b * (rs - Ln + 1) + b * Ln = b * rs + b := by
+        have : rs - Ln + 1 + Ln = rs + 1 := by omega
+        rw [← Nat.mul_add, this]; ring
+      have h6 : b * Ln = Ln * b := Nat.mul_comm _ _
+      have h7 : ((Ln * b : Nat) : Int) = (Ln : Int) * b := by push_cast; ring
       omega
-    by_contra hne
-    have h3 : rs - Ln + 1 ≤ a.length := by omega
-    have h4 : b * (rs - Ln + 1) ≤ b * a.length := Nat.mul_le_mul_left b h3
-    have h5 : b * (rs - Ln + 1) + b * Ln = b * rs + b := by
-      have : rs - Ln + 1 + Ln = rs + 1 := by omega
-      rw [← Nat.mul_add, this]; ring
-    have h6 : b * Ln = Ln * b := Nat.mul_comm _ _
-    have h7 : ((Ln * b : Nat) : Int) = (Ln : Int) * b := by push_cast; ring
-    omega
+    · -- the shifted input lies entirely below the output: `gap` carry-only steps on zero limbs
+      have hgt : rs < Ln := by omega
+      set gap := Ln - rs with hgapdef
+      have h1 : min Ln rs = rs := by omega
+      have h2 : min (rs - Ln) a.length = 0 := by omega
+      have h3 : min (a.length + Ln) rs = rs := by omega
+      rw [h1, h2, h3]
+      simp only [List.drop_zero, List.take_zero, Nat.sub_self]
+      have hc0 : |(carryOnlyRun bits b lsh a).getD 0| ≤ H + 3 := by
+        rw [carryOnlyRun_getD hr a ha]
+        exact (middleRun_spec hr a ha 0 (by have := hr.hH0; simp; linarith)).2.2.2
+      rw [gapRun_cap hr hc0, ← carryOnlyRun_gap hr a ha gap]
+      set D := List.replicate gap (0 : Int) ++ a with hD
+      have hDb : ∀ x ∈ D, |x| ≤ H := by
+        intro x hx
+        rcases List.mem_append.mp hx with h | h
+        · rw [(List.mem_replicate.mp h).2]; simpa using hr.hH0
+        · exact ha x h
+      obtain ⟨hlen, hbal, q, ε, hε, hε0, hcore⟩ := inter_core hr [] D (by simp) hDb rs 0
+      simp only [List.nil_append, List.length_nil, Nat.add_zero, Nat.mul_zero, pow_zero, mul_one] at hlen hcore
+      have hdl : D.length = gap + a.length := by simp [hD]
+      have hDv : valI b D = valI b a := by
+        rw [hD, valI_append, valI_replicate_zero]; ring
+      rw [hdl] at hcore hε
+      rw [hDv] at hcore
+      refine ⟨hlen, hbal, ?_, ?_⟩
+      · by_cases hrs0 : rs = 0
+        · subst hrs0
+          simpa using torusNear_zero_prec _ (valI b a) _
+        · have hrs1 : 1 ≤ rs := by omega
+          have hlr : lsh ≤ rs * b := by
+            have : b * 1 ≤ b * rs := Nat.mul_le_mul_left b hrs1
+            have : b * rs = rs * b := Nat.mul_comm _ _
+            omega
+          have hS : (2 : Int) ^ (rs * b - lsh) * 2 ^ lsh = 2 ^ (b * rs) := by
+            rw [← pow_add]; congr 1; rw [Nat.mul_comm b rs]; omega
+          have hcore' : valI b a * 2 ^ lsh * 2 ^ (b * 0)
+              = valI b (finalTopRun bits b lsh (List.replicate rs 0)
+                  (middleRun bits b lsh [] ((carryOnlyRun bits b lsh D).getD 0)).2 ++
+                  (middleRun bits b lsh [] ((carryOnlyRun bits b lsh D).getD 0)).1 ++ List.replicate 0 0)
+                  * 2 ^ (b * (gap + a.length))
+                + q * 2 ^ (b * (rs + 0 + (gap + a.length) + 0)) + ε * 2 ^ (b * 0) := by
+            simpa using hcore
+          have := neg_arith _ (valI b a) q ε b lsh (rs * b - lsh) rs 0 (gap + a.length) 0 rs (gap + a.length)
+            hS (by omega) (by omega) (by omega) hε (by omega) hcore'
+          have hpy : b * (gap + a.length) + (rs * b - lsh) = b * a.length + (Ln * b - lsh) := by
+            have e : Ln = gap + rs := by omega
+            have e' : Ln * b = gap * b + rs * b := by rw [e, Nat.add_mul]
+            have e'' : b * (gap + a.length) = gap * b + b * a.length := by ring
+            omega
+          rw [hpy] at this
+          simpa using this.1
+      · -- enough limbs is impossible in the gap
+        intro hex
+        exfalso
+        have e : Ln = gap + rs := by omega
+        have e' : Ln * b = gap * b + rs * b := by rw [e, Nat.add_mul]
+        have hgb : b * 1 ≤ b * gap := Nat.mul_le_mul_left b (by omega)
+        have e3 : b * gap = gap * b := Nat.mul_comm _ _
+        have e4 : b * rs = rs * b := Nat.mul_comm _ _
+        have hpc : ((Ln * b : Nat) : Int) = ((gap * b : Nat) : Int) + ((rs * b : Nat) : Int) := by
+          rw [e']; push_cast; ring
+        have : (0 : Int) ≤ ((b * a.length : Nat) : Int) := by positivity
+        omega
 
 end
-
-end NormL
-
-namespace NormL
-
-/-- adding whole limbs to the offset only moves the limb offset -/
-theorem splitOffset_add_mul {b : Nat} (hb : 1 ≤ b) (off : Int) (g : Nat) :
-    splitOffset b (off + g * b) = ((splitOffset b off).1, (splitOffset b off).2 + g) := by
-  obtain ⟨h1, l1⟩ := splitOffset_spec hb off
-  obtain ⟨h2, l2⟩ := splitOffset_spec hb (off + g * b)
-  generalize splitOffset b off = s1 at h1 l1 ⊢
-  generalize splitOffset b (off + g * b) = s2 at h2 l2 ⊢
-  obtain ⟨r1, q1⟩ := s1
-  obtain ⟨r2, q2⟩ := s2
-  simp only at h1 l1 h2 l2 ⊢
-  have hbpos : (0 : Int) < b := by exact_mod_cast hb
-  have key : (q2 - q1 - g) * b = (r1 : Int) - r2 := by rw [h1] at h2; linarith
-  have hd : q2 - q1 - g = 0 := by
-    by_contra hne
-    rcases lt_or_gt_of_ne hne with h | h
-    · have : (q2 - q1 - g) * b ≤ -1 * b := mul_le_mul_of_nonneg_right (by omega) (le_of_lt hbpos)
-      omega
-    · have : 1 * (b : Int) ≤ (q2 - q1 - g) * b := mul_le_mul_of_nonneg_right (by omega) (le_of_lt hbpos)
-      omega
-  rw [hd] at key
-  have : r2 = r1 := by omega
-  have : q2 = q1 + g := by omega
-  simp [*]
-
-/-- **full statement for the proposed repair** (docs/C08.md): with the extra carry-only steps over
-the gap the same-radix normalisation satisfies the value theorem for *every* offset. -/
-theorem normalizeInterCoefRepaired_value {bits b : Nat} {H : Int} (hr0 : HeadRoom bits b 0 H)
-    (rs : Nat) (hrs : 1 ≤ rs) (off : Int) (a : List Int) (ha : ∀ x ∈ a, |x| ≤ H) :
-    (normalizeInterCoefRepaired bits b rs off a).length = rs ∧
-    (∀ d ∈ normalizeInterCoefRepaired bits b rs off a, Balanced b d) ∧
-    TorusNear (valI b (normalizeInterCoefRepaired bits b rs off a)) (b * rs)
-      (valI b a * 2 ^ off.toNat) (b * a.length + (-off).toNat) := by
-  have hb : 1 ≤ b := by have := hr0.hlsh; omega
-  unfold normalizeInterCoefRepaired
-  obtain ⟨hoff, hl⟩ := splitOffset_spec hb off
-  set lo := (splitOffset b off).2 with hlo
-  set lsh := (splitOffset b off).1 with hlsh
-  set gap := Int.toNat (-lo - rs) with hgap
-  have ha' : ∀ x ∈ List.replicate gap (0 : Int) ++ a, |x| ≤ H := by
-    intro x hx
-    rcases List.mem_append.mp hx with h | h
-    · rw [(List.mem_replicate.mp h).2]; simpa using hr0.hH0
-    · exact ha x h
-  have hng : -(splitOffset b (off + gap * b)).2 ≤ (rs : Int) := by
-    rw [splitOffset_add_mul hb]; simp only; omega
-  obtain ⟨h1, h2, h3, _⟩ := normalizeInterCoef_value hr0 rs (off + gap * b) _ ha' hng
-  refine ⟨h1, h2, ?_⟩
-  rw [valI_append, valI_replicate_zero, zero_mul, zero_add, List.length_append, List.length_replicate] at h3
-  by_cases hg : gap = 0
-  · rw [hg] at h3 ⊢
-    simpa using h3
-  · -- in the gap: off < 0 and the new offset is still ≤ 0
-    have hgb : ((gap * b : Nat) : Int) = (gap : Int) * b := by push_cast; ring
-    have hrb : (b : Int) * 1 ≤ b * rs := by
-      have : (1 : Int) ≤ rs := by exact_mod_cast hrs
-      exact mul_le_mul_of_nonneg_left this (by omega)
-    have hlob : lo * b + (gap : Int) * b = -((rs : Int) * b) := by
-      have : lo + gap = -(rs : Int) := by omega
-      rw [← add_mul, this]; ring
-    have hneg : off + gap * b ≤ 0 := by
-      have : (b : Int) * rs = rs * b := by ring
-      omega
-    have e1 : (off + (gap : Int) * b).toNat = 0 := by omega
-    have hoffneg : off ≤ 0 := by
-      have : (0 : Int) ≤ (gap : Int) * b := by positivity
-      omega
-    have e2 : off.toNat = 0 := by omega
-    have e3 : b * (gap + a.length) + (-(off + (gap : Int) * b)).toNat = b * a.length + (-off).toNat := by
-      have : b * (gap + a.length) = gap * b + b * a.length := by ring
-      omega
-    rw [e1, e3] at h3
-    rw [e2]
-    exact h3
 
 end NormL
 
@@ -452,7 +455,8 @@ theorem rshCoef_overwrite_eq {b : Nat} (hb : 1 ≤ b) (k : Nat) (a res : List In
   generalize (rshSteps b k).2 = lsh
   have e1 : (a.length : Int) - -(steps : Int) = (a.length : Int) + steps := by ring
   have e2 : (res.length : Int) + -(steps : Int) = (res.length : Int) - steps := by ring
-  rw [neg_neg, e1, e2, clampNat_natCast, clampNat_add, clampNat_neg, clampNat_sub]
+  have hgap : Int.toNat (- -(steps : Int) - (res.length : Int)) = steps - res.length := by omega
+  rw [hgap, neg_neg, e1, e2, clampNat_natCast, clampNat_add, clampNat_neg, clampNat_sub]
   have m1 : min res.length steps = min steps res.length := Nat.min_comm _ _
   have m2 : min res.length (a.length + steps) = min (a.length + steps) res.length := Nat.min_comm _ _
   have m3 : min a.length (res.length - steps) = min (res.length - steps) a.length := Nat.min_comm _ _
